@@ -167,6 +167,13 @@ func (o *orC01) onSQL(ev *SQLEvent) {
 	for _, h := range members {
 		sv := s.mysql.servers[h]
 		if sv == nil || !sv.Up {
+			// frozen by this attempt and lost afterwards (the scenario took it down during the very
+			// pass): it was read-only when the manager froze it and what it held then is what counts
+			if x, ok := o.heldAtFreeze[it][h]; ok && sv != nil && sv.lastWorldChange >= it.startT && x.SubsetOf(H.Executed) {
+				m.probe("c01_member_lost_after_freeze")
+				F = append(F, h)
+				continue
+			}
 			deficits = append(deficits, h+":down")
 			continue
 		}
